@@ -67,3 +67,13 @@ Print Assumptions C05_missing_segment_skipped.
 Theorem C05_non_string_skipped : forall E segc neg v, (forall k, v <> JStr k) -> segkey_step E segc neg v = Done None.
 Proof. exact segkey_step_nonstring. Qed.
 Print Assumptions C05_non_string_skipped.
+
+(* ---- the defect found in the unchanged repository, as a kernel-checked refutation of the original code ---- *)
+From LD Require Import Legacy.
+Theorem C05_legacy_refuted :
+  per_kind (CSingle user_a) (sg_inc_ctx seg_user_list) = true /\
+  regular_lists_legacy (CSingle user_a) seg_user_list = None /\
+  regular_lists_legacy (CMulti [user_a; mksingle (s "zz") (s "q") None false None []]) seg_user_list = Some true /\
+  regular_lists (CSingle user_a) seg_user_list = Some true.
+Proof. exact C05_C20_legacy_refuted. Qed.
+Print Assumptions C05_legacy_refuted.
